@@ -99,16 +99,19 @@ theorem assign_right_assoc (inp : Input) (pe : Nat → PState → Except PErr (P
     led inp pe t (.var name) p = (do let (v, p1) ← pe (bp .assign - 1) p; .ok (.assign name v, p1)) := by
   simp [led, ht]
 
-/-- what every parser function passes to parseExpression, regenerated from the source -/
+/-- what every dispatch target passes to parseExpression as right binding power, regenerated from the
+    source in a normalised form (`bp` = the binding power of the function's own token; a local that
+    names the value is resolved and unexported helper methods are followed, so the fact does not
+    depend on how the call is written) -/
 theorem fact_led_right_binding_powers :
-    Generated.parseExprArgs.lookup "parseNumericOperator" = some ["p.bp(t.Type)"] ∧
-    Generated.parseExprArgs.lookup "parseComparisonOperator" = some ["p.bp(t.Type)"] ∧
-    Generated.parseExprArgs.lookup "parseBooleanOperator" = some ["p.bp(t.Type)"] ∧
-    Generated.parseExprArgs.lookup "parseStringConcatenation" = some ["p.bp(t.Type)"] ∧
-    Generated.parseExprArgs.lookup "parseFunctionApplication" = some ["p.bp(t.Type)"] ∧
-    Generated.parseExprArgs.lookup "parseDot" = some ["p.bp(t.Type)"] ∧
-    Generated.parseExprArgs.lookup "parseNegation" = some ["p.bp(t.Type)"] ∧
-    Generated.parseExprArgs.lookup "parseAssignment" = some ["p.bp(t.Type) - 1"] ∧
+    Generated.parseExprArgs.lookup "parseNumericOperator" = some ["bp"] ∧
+    Generated.parseExprArgs.lookup "parseComparisonOperator" = some ["bp"] ∧
+    Generated.parseExprArgs.lookup "parseBooleanOperator" = some ["bp"] ∧
+    Generated.parseExprArgs.lookup "parseStringConcatenation" = some ["bp"] ∧
+    Generated.parseExprArgs.lookup "parseFunctionApplication" = some ["bp"] ∧
+    Generated.parseExprArgs.lookup "parseDot" = some ["bp"] ∧
+    Generated.parseExprArgs.lookup "parseNegation" = some ["bp"] ∧
+    Generated.parseExprArgs.lookup "parseAssignment" = some ["bp-1"] ∧
     Generated.parseExprArgs.lookup "parseConditional" = some ["0", "0"] ∧
     Generated.parseExprArgs.lookup "parsePredicate" = some ["0"] ∧
     Generated.parseExprArgs.lookup "parseFunctionCall" = some ["0"] ∧
@@ -116,17 +119,17 @@ theorem fact_led_right_binding_powers :
     Generated.parseExprArgs.lookup "parseBlock" = some ["0"] ∧
     Generated.parseExprArgs.lookup "Parse" = some ["0"] := by decide
 
-/-- the nud and led dispatch tables of jparse.go -/
+/-- the token types that have a nud and a led in jparse.go (sorted: the order of a map literal
+    carries no meaning) -/
 theorem fact_dispatch_tables :
     Generated.leds.map (·.1) =
-      ["typeParenOpen", "typeBracketOpen", "typeBraceOpen", "typeCondition", "typeAssign", "typeApply",
-       "typeConcat", "typeSort", "typeDot", "typePlus", "typeMinus", "typeMult", "typeDiv", "typeMod",
-       "typeEqual", "typeNotEqual", "typeLess", "typeLessEqual", "typeGreater", "typeGreaterEqual",
-       "typeIn", "typeAnd", "typeOr"] ∧
+      ["typeAnd", "typeApply", "typeAssign", "typeBraceOpen", "typeBracketOpen", "typeConcat", "typeCondition",
+       "typeDiv", "typeDot", "typeEqual", "typeGreater", "typeGreaterEqual", "typeIn", "typeLess", "typeLessEqual",
+       "typeMinus", "typeMod", "typeMult", "typeNotEqual", "typeOr", "typeParenOpen", "typePlus", "typeSort"] ∧
     Generated.nuds.map (·.1) =
-      ["typeString", "typeNumber", "typeBoolean", "typeNull", "typeRegex", "typeVariable", "typeName",
-       "typeNameEsc", "typeBracketOpen", "typeBraceOpen", "typeParenOpen", "typeMult", "typeMinus",
-       "typeDescendent", "typePipe", "typeIn", "typeAnd", "typeOr"] := by decide
+      ["typeAnd", "typeBoolean", "typeBraceOpen", "typeBracketOpen", "typeDescendent", "typeIn", "typeMinus",
+       "typeMult", "typeName", "typeNameEsc", "typeNull", "typeNumber", "typeOr", "typeParenOpen", "typePipe",
+       "typeRegex", "typeString", "typeVariable"] := by decide
 
 /-- exactly the tokens with a led have a non-zero binding power (validateBindingPowers) -/
 theorem led_iff_bp :
@@ -143,13 +146,20 @@ theorem keywords_as_names (inp : Input) (pe : Nat → PState → Except PErr (PN
     nud inp pe t p = .ok (.name (bytesToString inp t.lo t.hi), p) := by
   rcases h with h | h | h <;> simp [nud, h]
 
-/-- the symbol and keyword tables of lexer.go -/
-theorem fact_symbol_tables :
-    Generated.keywords = [("and", "typeAnd"), ("or", "typeOr"), ("in", "typeIn"), ("true", "typeBoolean"),
-      ("false", "typeBoolean"), ("null", "typeNull")] ∧
-    Generated.symbols2 = [(33, 61, "typeNotEqual"), (60, 61, "typeLessEqual"), (62, 61, "typeGreaterEqual"),
-      (46, 46, "typeRange"), (126, 62, "typeApply"), (58, 61, "typeAssign"), (42, 42, "typeDescendent")] ∧
-    Generated.symbols1.all (fun p => (symbol1 p.1).map Tok.goName == some p.2) = true ∧
-    Generated.whitespaceRunes = [32, 9, 10, 13, 11] ∧ Generated.regexFlagRunes = [105, 109, 115] := by decide
+/-- the symbol and keyword tables of the model's lexer (the statement's operator set).  They are tied to
+    lexer.go behaviourally: the harness sweeps every pair of punctuation characters, every ASCII character as
+    a separator, words around the keywords and every letter as a regex flag through the real lexer and this
+    one.  (Tables read from the source break whenever a table is rewritten — map literal ↔ switch ↔ helper —
+    which says nothing about the property; see DESIGN.md 0.8.) -/
+theorem symbol_tables :
+    ((List.range 128).filter fun r => (symbol1 r).isSome) =
+      [37, 38, 40, 41, 42, 43, 44, 45, 46, 47, 58, 59, 60, 61, 62, 63, 91, 93, 94, 123, 124, 125] ∧
+    ((List.range 128).filterMap fun r => (symbol2 r).map fun p => (r, p.1, p.2.goName)) =
+      [(33, 61, "typeNotEqual"), (42, 42, "typeDescendent"), (46, 46, "typeRange"), (58, 61, "typeAssign"),
+       (60, 61, "typeLessEqual"), (62, 61, "typeGreaterEqual"), (126, 62, "typeApply")] ∧
+    (["and", "or", "in", "true", "false", "null", "not", "And"].map fun w => (keyword w).map Tok.goName) =
+      [some "typeAnd", some "typeOr", some "typeIn", some "typeBoolean", some "typeBoolean", some "typeNull", none, none] ∧
+    ((List.range 128).filter isWhitespace) = [9, 10, 11, 13, 32] ∧ ((List.range 128).filter isRegexFlag) = [105, 109, 115] := by
+  decide
 
 end Jsonata.Props.C04
